@@ -5,6 +5,7 @@ import os
 
 from .. import facts as F
 from .. import peg, rx, kw, args
+from .. import probe as P
 from ..facts import src
 from ..args import unwrap, flat_alts, single_body
 
@@ -139,13 +140,45 @@ def run(c, facts, tier):
             "the octal run takes %s..%s digits; documented: exactly %d (a fourth digit starts the next literal)" % (st["min"], st["max"] if st["max"] is not None else "∞", spec["octal"]["digits"]),
             witness="-printf '\\0123'  (must be Ascii(0o012) then literal \"3\")" if not (st["min"] == 3 and st["max"] == 3) else None,
         )
-        c.ob("C14.octal", SPECIAL, "radix 8 into %s" % spec["octal"]["variant"], r["radix"] == 8 and r["ctor"] is not None and r["ctor"].endswith("::" + spec["octal"]["variant"]), "from_str_radix(_, %s) mapped by %s" % (r["radix"], r["ctor"]))
         from ..valueflow import compose_maps
 
         comp = compose_maps(list(reversed(a.maps)), facts, b, {"__module": facts.fn(SPECIAL).module, "__tsubst": {}}, "FormatSpecial")
         want_comp = "FormatSpecial::%s(%s::from_str_radix(X,8).unwrap())" % (spec["octal"]["variant"], r["ty"])
         okc = comp is not None and re.sub(r"\s", "", comp) == want_comp
-        c.ob("C14.octal", SPECIAL, "the element carries exactly the octal value of the digits", okc, "digits X become `%s`; required `%s` (no masking, offset or other arithmetic)" % (comp, want_comp), witness="-printf '\\501'  (must be Ascii(0o501))" if not okc else None)
+        syn_ok = r["radix"] == 8 and r["ctor"] is not None and r["ctor"].endswith("::" + spec["octal"]["variant"])
+        ev_det = None
+        if not (okc and syn_ok) and st["cs"][0] == "in" and st["max"] is not None and st["max"] <= 4 and len(st["cs"][1]) <= 10:
+            # however the conversion is written (from_str_radix, a fold over to_digit, ..): the chain of maps applied to every
+            # digit string the run can match (all of them: ≤ 10^4) yields the variant with the octal value of the string
+            import itertools
+
+            pr = P.Probe(facts, "FormatSpecial", facts.fn(SPECIAL).module)
+            want_v = "FormatSpecial::" + spec["octal"]["variant"]
+            bad_, n_ = [], 0
+            try:
+                fvs = [pr.ev(f_, {}) for f_ in a.maps]
+                for k_ in range(max(st["min"], 1), st["max"] + 1):
+                    for tup in itertools.product(sorted(st["cs"][1]), repeat=k_):
+                        x_ = "".join(tup)
+                        n_ += 1
+                        v_ = x_
+                        try:
+                            for fv in fvs:
+                                v_ = pr.apply(fv, [v_])
+                        except P.Panic as ex:
+                            v_ = "panic (%s)" % ex
+                        ref = ("enum", want_v, [int(x_, 8)]) if all(ch in "01234567" for ch in x_) else None
+                        if not (isinstance(v_, tuple) and len(v_) == 3 and ref is not None and v_[0] == "enum" and rx.canon_path(v_[1], scope) == want_v and list(v_[2]) == ref[2]) and len(bad_) < 3:
+                            bad_.append("%s → %r" % (x_, v_))
+                ev_det = (not bad_ and n_ > 0, "each of the %d digit strings the run can match, put through the map chain, yields %s(value of the string in base 8)%s" % (n_, want_v, "" if not bad_ else "; EXCEPT " + "; ".join(bad_)))
+            except P.NoEval as ex:
+                ev_det = (None, "the map chain is not evaluable: %s" % ex)
+        if ev_det is not None:
+            c.ob("C14.octal", SPECIAL, "radix 8 into %s" % spec["octal"]["variant"], ev_det[0], ev_det[1])
+            c.ob("C14.octal", SPECIAL, "the element carries exactly the octal value of the digits", ev_det[0], ev_det[1], witness="-printf '\\501'  (must be Ascii(0o501))" if not ev_det[0] else None)
+        else:
+            c.ob("C14.octal", SPECIAL, "radix 8 into %s" % spec["octal"]["variant"], syn_ok, "from_str_radix(_, %s) mapped by %s" % (r["radix"], r["ctor"]))
+            c.ob("C14.octal", SPECIAL, "the element carries exactly the octal value of the digits", okc, "digits X become `%s`; required `%s` (no masking, offset or other arithmetic)" % (comp, want_comp), witness="-printf '\\501'  (must be Ascii(0o501))" if not okc else None)
         # ordering: the run must be tried before any literal alternative starting with one of its digits
         bad = [x.lit for x in ealts if x.lit and x.idx < a.idx and peg.cs_has(st["cs"], x.lit[0])]
         c.ob("C14.octal", SPECIAL, "octal run precedes the single-digit escapes", not bad, "literal alternatives %s are tried before the octal run: \\012 would be read as \\0 followed by '12'" % bad if bad else "the run is tried first")
